@@ -9,7 +9,7 @@ use cw2::{get_contract_version, set_contract_version};
 use protobuf::Message;
 use semver::Version;
 
-use white_whale_std::pool_network::asset::{AssetInfoRaw, PairInfoRaw};
+use white_whale_std::pool_network::asset::{AssetInfoRaw, PairInfoRaw, PairType};
 use white_whale_std::pool_network::pair::{
     Config, ExecuteMsg, FeatureToggle, InstantiateMsg, MigrateMsg, QueryMsg,
 };
@@ -27,6 +27,10 @@ const CONTRACT_NAME: &str = "white_whale-pool";
 const CONTRACT_VERSION: &str = env!("CARGO_PKG_VERSION");
 
 pub const INSTANTIATE_REPLY_ID: u64 = 1;
+/// Minimum amplification coefficient of a stableswap pair.
+pub const MIN_AMP: u64 = 1;
+/// Maximum amplification coefficient of a stableswap pair.
+pub const MAX_AMP: u64 = 1_000_000;
 
 #[cfg_attr(not(feature = "library"), entry_point)]
 pub fn instantiate(
@@ -36,6 +40,16 @@ pub fn instantiate(
     msg: InstantiateMsg,
 ) -> Result<Response, ContractError> {
     set_contract_version(deps.storage, CONTRACT_NAME, CONTRACT_VERSION)?;
+
+    // check the amplification of a stableswap pair is in range
+    if let PairType::StableSwap { amp } = msg.pair_type {
+        if !(MIN_AMP..=MAX_AMP).contains(&amp) {
+            return Err(StdError::generic_err(format!(
+                "Amplification must be between {MIN_AMP} and {MAX_AMP}"
+            ))
+            .into());
+        }
+    }
 
     let pair_info: &PairInfoRaw = &PairInfoRaw {
         contract_addr: deps.api.addr_canonicalize(env.contract.address.as_str())?,
